@@ -41,8 +41,10 @@ def parse_factor(text):
     return res
 
 
-def compare(ctx, recs, nmax=24):
-    """recs from sweep (real precisions). -> stats, disagreements"""
+def compare(ctx, recs, nmax=24, with_x=False):
+    """recs from sweep (real precisions). -> stats, disagreements.  with_x: also compare the returned X with the exact solution
+    of the model's triangular solves (`solveN`, theorem solve_correct) — only meaningful for well-conditioned inputs (callers pass
+    diagonally dominant populations) and column storage."""
     items = []
     for r in recs:
         cfg = r["cfg"]
@@ -50,8 +52,11 @@ def compare(ctx, recs, nmax=24):
             continue
         F = S.transpose(r["M"]) if cfg["stype"] == "NR" else r["M"]
         u = cfg["u"] if cfg["driver"] != "gssv" else 1.0
-        items.append((r, factor_case_text("c%d" % cfg["t"], F, r["res"]["perm_c"], u)))
-    stats = {"compared": 0, "ambiguous_skipped": 0, "singular_model": 0, "perm_r_equal": 0}
+        rhs = ()
+        if with_x and cfg["stype"] == "NC" and cfg["nrhs"] > 0 and r["info"] == 0 and cfg.get("trans", 0) == 0 and cfg.get("fact", 0) == 0:
+            rhs = r["rhs"]
+        items.append((r, factor_case_text("c%d" % cfg["t"], F, r["res"]["perm_c"], u, rhs=rhs)))
+    stats = {"compared": 0, "ambiguous_skipped": 0, "singular_model": 0, "perm_r_equal": 0, "x_compared": 0, "x_max_rel_diff": 0.0}
     dis = []
     if not items:
         return stats, dis
@@ -74,6 +79,16 @@ def compare(ctx, recs, nmax=24):
                 bad.append("perm_r")
             else:
                 stats["perm_r_equal"] += 1
+                if with_x and m["x"]:
+                    pc = r["res"]["perm_c"]; n = cfg["n"]; ld = cfg["ld"]
+                    tol = 1e-9 if cfg["prec"] == "d" else 2e-3
+                    for k, xm in m["x"].items():
+                        xc = r["res"]["X"][k * ld:k * ld + n]
+                        scale = max([abs(v) for v in xm] + [Fraction(1, 10 ** 30)])
+                        d = max(abs(Fraction(xc[j]) - xm[pc[j]]) for j in range(n)) / scale
+                        stats["x_compared"] += 1; stats["x_max_rel_diff"] = max(stats["x_max_rel_diff"], float(d))
+                        if d > tol * n:
+                            bad.append("X column %d differs from the exact solve of the model by %.3g (relative to max|x|)" % (k, float(d)))
         if bad:
             dis.append({"kind": "factor-disagreement", "fields": bad, "model": {"info": m["info"], "permr": m["permr"]},
                         "code": {"info": r["info"], "permr": r["res"]["perm_r"]}, "replay": S.replay_blob(r)})
